@@ -457,6 +457,8 @@ def atan(rho):
     P = pi()
     c.add_fact(mkcond('gt', P / 2 - Aa)); c.add_fact(mkcond('gt', Aa + P / 2))
     c.add_fact(mkcond('ge', Aa * Frac(rho.num) * Frac(rho._den_poly())))     # same sign as rho
+    z = mkcond('eq', Frac(rho.num))
+    c.add_fact((~mkcond('eq', Aa)) | z if not isinstance(z, bool) else (~mkcond('eq', Aa) if not z else True))
     c.numeric[vid] = lambda val, rho=rho: mpmath.atan(rho.evalf(val))
     c.deriv[vid] = lambda wrt, cache, rho=rho: diff(rho, wrt, cache) / (1 + rho * rho)
     r = sqrt(1 + rho * rho, check_domain=False)
